@@ -4,6 +4,8 @@
 id=$1; x=$2; wt=/tmp/wt/$id; seed=${SEEDROOT:-/tmp/seeds}/$id/$x
 export NUMBA_CACHE_DIR=/tmp/numba_cache_${id}_${x}
 mkdir -p $NUMBA_CACHE_DIR
+# the suite leaves ~70 MB of temporary files per run: keep them in a directory that is removed afterwards
+export TMPDIR=/tmp/seedtmp_${id}_${x}; mkdir -p $TMPDIR
 cd $wt || exit 2
 git checkout -q -- . ; git clean -qfd -e data >/dev/null 2>&1
 git checkout -q --detach $(git -C /repo rev-parse HEAD) 2>/dev/null
@@ -20,5 +22,5 @@ fails=$(grep -E "^FAILED" /tmp/confirm_${id}_${x}.log | sort | md5sum | cut -c1-
 rm -f /tmp/confirm_${id}_${x}.log; rm -rf $NUMBA_CACHE_DIR; mkdir -p $NUMBA_CACHE_DIR
 git checkout -q -- . ; find . -name "*.orig" -delete; find . -name "*.rej" -delete
 /venv/bin/python $seed/demo.py > $seed/confirm_demo_without.txt 2>&1; dwo=$?
-rm -rf $NUMBA_CACHE_DIR
+rm -rf $NUMBA_CACHE_DIR $TMPDIR
 echo "$id/$x apply=$ap demo_with=$dw tests='$t' failset=$fails demo_without=$dwo"
